@@ -1480,6 +1480,90 @@ func runC18Histories(c *Ctx) {
 			}
 		}
 	}
+	// ... also when the resource with the packed contained resource is itself embedded (a Bundle entry; the JSON
+	// parser of google/fhir does not read Parameters.parameter.resource): the root has no `contained` of its own
+	{
+		roots := []struct{ name, json, prefix string }{
+			{"Bundle", `{"resourceType":"Bundle","id":"b7","type":"collection","entry":[{"resource":{"resourceType":"Patient","id":"h7","contained":[{"resourceType":"Patient","id":"c1","birthDate":"1980-02-29","name":[{"family":"A"},{"family":"B"}]}],"birthDate":"2000-01-01"}}]}`, "Bundle.entry[0].resource"},
+			{"Bundle (un-indexed)", `{"resourceType":"Bundle","id":"b8","type":"collection","entry":[{"resource":{"resourceType":"Patient","id":"h7","contained":[{"resourceType":"Patient","id":"c1","birthDate":"1980-02-29","name":[{"family":"A"}]}]}}]}`, "Bundle.entry.resource"},
+		}
+		for _, root := range roots {
+			type tc struct {
+				what string
+				run  func(r fhir.Resource) error
+			}
+			pre := root.prefix
+			for _, t := range []tc{
+				{"delete " + pre + ".contained[0].birthDate", func(r fhir.Resource) error { return patch.Delete(r, pre+".contained[0].birthDate") }},
+				{"delete " + pre + ".contained[0].name[0]", func(r fhir.Resource) error { return patch.Delete(r, pre+".contained[0].name[0]") }},
+				{"replace " + pre + ".contained[0].birthDate", func(r fhir.Resource) error {
+					return patch.Replace(r, pre+".contained[0].birthDate", fhir.MustParseDate("1990-05-05"))
+				}},
+				{"replace " + pre + ".contained[0].name[0].family", func(r fhir.Resource) error {
+					return patch.Replace(r, pre+".contained[0].name[0].family", &dtpb.String{Value: "Z"})
+				}},
+				{"add " + pre + ".contained[0] active", func(r fhir.Resource) error {
+					return patch.Add(r, pre+".contained[0]", "active", fhir.Boolean(true), &patch.Options{})
+				}},
+				{"insert " + pre + ".contained[0].name", func(r fhir.Resource) error {
+					return patch.Insert(r, pre+".contained[0].name", &dtpb.HumanName{Family: &dtpb.String{Value: "N"}}, 0)
+				}},
+				{"delete " + pre + ".contained.name.family", func(r fhir.Resource) error { return patch.Delete(r, pre+".contained.name.family.first()") }},
+			} {
+				r := mustResource(root.json)
+				before := js(r)
+				var err error
+				_, pan, _ := safeErr(func() error { err = t.run(r); return nil })
+				c.Observe("embedded contained "+t.what, true)
+				c.Law(!pan, "C18/history", "a patch operation returns", t.what, "panic")
+				if err == nil {
+					c.Law(js(r) != before, "C18/contained-copy", "an operation that reports success has changed the resource it was given (a path through `contained` must not be applied to an unpacked copy)", t.what+" on "+before, "returned nil; resource afterwards: "+js(r))
+				} else {
+					c.Law(js(r) == before, "C18/error-modified", "a refused operation leaves the resource as it was", t.what, js(r))
+				}
+			}
+		}
+	}
+	// one code text on same-named elements of different resource types: every resource type has its own value set (and its own
+	// enum numbering), whatever was patched before in this process
+	{
+		types := []struct{ name, json string }{
+			{"Observation", `{"resourceType":"Observation","id":"o","status":"%s","code":{"text":"x"}}`},
+			{"DiagnosticReport", `{"resourceType":"DiagnosticReport","id":"d","status":"%s","code":{"text":"x"}}`},
+			{"Encounter", `{"resourceType":"Encounter","id":"e","status":"%s","class":{"code":"AMB"}}`},
+			{"Task", `{"resourceType":"Task","id":"t","status":"%s","intent":"order"}`},
+			{"MedicationRequest", `{"resourceType":"MedicationRequest","id":"m","status":"%s","intent":"order","medicationCodeableConcept":{"text":"x"},"subject":{"reference":"Patient/1"}}`},
+		}
+		first := map[string]string{"Observation": "registered", "DiagnosticReport": "registered", "Encounter": "planned", "Task": "draft", "MedicationRequest": "active"}
+		codes := []string{"final", "appended", "amended", "registered", "preliminary", "corrected", "cancelled", "entered-in-error", "unknown", "planned", "arrived", "in-progress", "finished", "draft", "requested", "completed", "partial", "active", "on-hold", "stopped", "triaged", "onleave", "rejected", "failed", "ready", "accepted", "received"}
+		valid := func(tj, code string) (string, bool) {
+			var r fhir.Resource
+			_, pan, _ := safeErr(func() error { r = mustResource(fmt.Sprintf(tj, code)); return nil })
+			if pan || r == nil {
+				return "", false
+			}
+			return canonJSONOf(r), true
+		}
+		for round := 0; round < 2; round++ {
+			for _, code := range codes {
+				for _, ty := range types {
+					r := mustResource(fmt.Sprintf(ty.json, first[ty.name]))
+					before := js(r)
+					want, ok := valid(ty.json, code)
+					var err error
+					_, pan, _ := safeErr(func() error { err = patch.Replace(r, ty.name+".status", &dtpb.Code{Value: code}); return nil })
+					what := "replace " + ty.name + ".status with '" + code + "' (after the same code text was patched on other resource types)"
+					c.Observe("cross-type code "+ty.name+" "+code, true)
+					c.Law(!pan, "C18/history", "a patch operation returns", what, "panic")
+					if ok {
+						c.Law(err == nil && js(r) == want, "C18/wrong-edit", "replace stores the code supplied, read in the value set of the element it is stored in", what, fmt.Sprint(err)+" "+js(r)+" want "+want)
+					} else {
+						c.Law(err != nil && js(r) == before, "C18/invalid-code-accepted", "a code outside the element's value set is refused and the resource left as it was", what, fmt.Sprint(err)+" "+js(r))
+					}
+				}
+			}
+		}
+	}
 	// the protos' placeholder enum value is not a code of any value set
 	for _, v := range []string{"invalid-uninitialized", "INVALID_UNINITIALIZED", "invalid_uninitialized"} {
 		p := mustResource(`{"resourceType":"Patient","id":"h4","gender":"male"}`)
@@ -1494,7 +1578,14 @@ func runC18Histories(c *Ctx) {
 }
 
 // canonJSONOf: the resource's FHIR JSON with object keys sorted
-func canonJSONOf(r fhir.Resource) string {
+func canonJSONOf(r fhir.Resource) (out string) {
+	// a resource whose enum number is outside its value set makes the JSON marshaller panic: that is a rendering
+	// ("unmarshalable") every law then compares with the expected JSON, not the end of the run
+	defer func() {
+		if p := recover(); p != nil {
+			out = fmt.Sprintf("unmarshalable: panic in the JSON marshaller: %v", p)
+		}
+	}()
 	b, err := marshalJSON(r)
 	if err != nil {
 		return "unmarshalable: " + err.Error()
@@ -1503,6 +1594,6 @@ func canonJSONOf(r fhir.Resource) string {
 	if json.Unmarshal(b, &v) != nil {
 		return string(b)
 	}
-	out, _ := json.Marshal(v)
-	return string(out)
+	o, _ := json.Marshal(v)
+	return string(o)
 }
